@@ -87,4 +87,31 @@ theorem validateMap_roundtrip (o : VOpts) (m m' : CMap) (hok : ∀ kv ∈ m, Ent
     validateMap o (claimsView m') = validateMap o (claimsView m) := by
   rw [claimsView_roundtrip m m' hok hnd hl]
 
+/-- **the verdict does not depend on the order in which the map presents its claims**, nor on what else it holds:
+    two maps with pairwise distinct labels that answer the five registered look-ups alike are validated alike — in
+    particular any permutation of one map (Go's map iteration order), with any number of application claims under
+    text or other integer labels in between -/
+theorem validateMap_order_independent (o : VOpts) (m m' : CMap) (hp : m'.Perm m) (hnd : (m.map (·.1)).Nodup) :
+    validateMap o (claimsView m') = validateMap o (claimsView m) := by
+  have hl : ∀ l, m'.lookup l = m.lookup l := fun l => lookup_perm hp hnd l
+  unfold claimsView
+  simp only [hl]
+
+theorem validateMap_ignores_other_claims (o : VOpts) (m : CMap) (l : Label) (v : GoVal)
+    (hl : l ≠ lblC Cose.Gen.Iana.CWTClaimExp ∧ l ≠ lblC Cose.Gen.Iana.CWTClaimNbf ∧ l ≠ lblC Cose.Gen.Iana.CWTClaimIat ∧
+      l ≠ lblC Cose.Gen.Iana.CWTClaimIss ∧ l ≠ lblC Cose.Gen.Iana.CWTClaimAud) :
+    validateMap o (claimsView (m ++ [(l, v)])) = validateMap o (claimsView m) := by
+  have key : ∀ l', l' ≠ l → (m ++ [(l, v)]).lookup l' = m.lookup l' := by
+    intro l' hne
+    unfold CMap.lookup
+    rw [List.find?_append]
+    cases hf : m.find? (fun kv => kv.1 == l') with
+    | some kv => rfl
+    | none =>
+      have : ((l, v).1 == l') = false := by
+        simp only [beq_eq_false_iff_ne, ne_eq]; exact fun e => hne e.symm
+      simp [this]
+  unfold claimsView
+  rw [key _ (Ne.symm hl.1), key _ (Ne.symm hl.2.1), key _ (Ne.symm hl.2.2.1), key _ (Ne.symm hl.2.2.2.1), key _ (Ne.symm hl.2.2.2.2)]
+
 end Cose.Cwt
